@@ -23,7 +23,8 @@ ANCHORS = ['pycaption.dfxp.base:DFXPReader.read', 'pycaption.dfxp.base:DFXPWrite
 ANCHORS_OPTIONAL = ('pycaption.dfxp.base:DFXPReader.read', 'pycaption.sami:SAMIParser._find_lang',
                     'pycaption.sami:SAMIParser.handle_starttag', 'pycaption.sami:SAMIReader.read',
                     'pycaption.sami:SAMIReader._translate_lang')   # also run in child processes
-REQUIRE = {'child_batches': 3, 'dfxp_docs_read': 30, 'sami_docs_read': 30, 'div_without_lang': 5,
+REQUIRE = {'sets_whose_languages_share_all_timespans': 50, 'dfxp_writes_LegacyDFXPWriter': 20,
+           'dfxp_writes_SinglePositioningDFXPWriter': 20, 'child_batches': 3, 'dfxp_docs_read': 30, 'sami_docs_read': 30, 'div_without_lang': 5,
            'default_lang_env_used': 2, 'sets_written_dfxp': 50, 'sets_written_sami': 50, 'webvtt_lang_option': 30,
            'force_option': 20, 'sami_secondary_language_syncs_inserted': 30, 'reader_lang_option': 20,
            'languages_compared': 300, 'hash_seeds_used': 2, 'webvtt_lang_absent': 10}
@@ -109,6 +110,13 @@ def gen_multi_set(rng, tag):
         if not ok:
             caps = caps[:1]
         spec['langs'].append({'lang': lang, 'layout': None, 'captions': caps})
+    if len(langs) > 1 and rng.random() < 0.35:
+        # translations of one programme: every language has exactly the timespans of the first one
+        first = spec['langs'][0]['captions']
+        for l in spec['langs'][1:]:
+            l['captions'] = [{'start': c['start'], 'end': c['end'], 'nodes': [['t', f"{tag}.{l['lang']}.{ci} text"]],
+                              'style': None, 'layout': None} for ci, c in enumerate(first)]
+        spec['parallel'] = True
     return spec
 
 
@@ -131,7 +139,8 @@ def cases(ctx):
             spec = gen_multi_set(rng, tag)
             langs = [l['lang'] for l in spec['langs']]
             force = rng.choice(['', '', rng.choice(langs), 'xx', rng.choice(langs).upper(), rng.choice(langs).lower()])
-            yield {'kind': 'dfxp-write', 'set': spec, 'force': force}
+            yield {'kind': 'dfxp-write', 'set': spec, 'force': force,
+                   'writer': rng.choice(['DFXPWriter', 'DFXPWriter', 'SinglePositioningDFXPWriter', 'LegacyDFXPWriter'])}
         elif r < 0.7:
             yield {'kind': 'sami-write', 'set': gen_multi_set(rng, tag)}
         elif r < 0.85:
@@ -224,6 +233,8 @@ def check(case, ctx):
     langs = [l['lang'] for l in spec['langs']]
     texts = {l['lang']: [c['nodes'][0][1] for c in l['captions']] for l in spec['langs']}
     ctx.count('languages_compared', len(langs))
+    if spec.get('parallel'):
+        ctx.count('sets_whose_languages_share_all_timespans')
     if kind == 'webvtt-write':
         ctx.count('webvtt_lang_option')
         kw = {'lang': case['lang']} if case['lang'] else {}
@@ -242,11 +253,19 @@ def check(case, ctx):
         kw = {'force': case['force']} if case['force'] else {}
         if case['force']:
             ctx.count('force_option')
-        out = pycaption.DFXPWriter().write(cs, **kw)
+        wname = case.get('writer', 'DFXPWriter')
+        ctx.count('dfxp_writes_' + wname)
+        out = W.make_writer(wname, {}).write(cs, **kw)
         doc = parsers.parse_ttml(out)
         want_langs = [case['force']] if case['force'] in langs else langs
         got = [(d['lang'], [dump.norm_line(' '.join(p['lines'])) for p in d['ps']]) for d in doc['divs']]
         want = [(l, texts[l]) for l in want_langs]
+        if wname == 'LegacyDFXPWriter' and case['force'] and case['force'] not in langs and len(got) == 1 \
+                and got[0] in want:
+            # the legacy writer always narrows the document to ONE language when force= is given (the last one
+            # if the named language is absent); the statement only speaks of a named language that exists
+            ctx.count('legacy_writer_absent_force_one_language')
+            want = got
         if got != want:
             fails.append({'what': 'DFXP output divs are not the selected languages with their own cues in order',
                           'force': case['force'], 'expected': want, 'got': got})
